@@ -189,8 +189,10 @@ class SymbolKindTable:
                 try:
                     kind = unify(kind, tbl[name])
                 except Exception:
-                    print(
-                        "trying to derive 'kind' for '%s' in "
+                    # Keeping whichever kind was seen first would make the
+                    # result depend on the order of the statements.
+                    raise ValueError(
+                        "conflicting kinds for '%s' in "
                         "'%s': '%s' vs '%s'"
                         % (name, phase_name,
                             repr(kind),
